@@ -862,18 +862,45 @@ func (r *Run) indexAddr(fr *Frame, in *ssa.IndexAddr) {
 	}
 }
 
+// selectTerm builds elem(idx) for an in-range symbolic index as a chain of if-then-else terms
+// (lookup tables such as math/bits' len8tab are indexed by a symbolic byte).
+func (r *Run) selectTerm(idx *Term, n int, elem func(i int) *Term) *Term {
+	out := elem(n - 1)
+	for i := n - 2; i >= 0; i-- {
+		out = r.tt.Ite(r.tt.Eq(idx, r.tt.Int(64, int64(i))), elem(i), out)
+	}
+	return out
+}
+
+func (r *Run) strByte(sv StrVal, idx *Term) *Term {
+	if idx.IsConst() {
+		return r.tt.Const(BV(8), uint64(sv.s[int(idx.c)]))
+	}
+	if r.eng.cfg.ConcretizeIdx || len(sv.s) > 1024 {
+		i := r.concretize(idx, "index")
+		return r.tt.Const(BV(8), uint64(sv.s[i]))
+	}
+	return r.selectTerm(idx, len(sv.s), func(i int) *Term { return r.tt.Const(BV(8), uint64(sv.s[i])) })
+}
+
 func (r *Run) indexVal(fr *Frame, in *ssa.Index) {
 	x := r.get(fr, in.X)
 	idx := r.idxTerm(fr, in.Index)
 	switch xv := x.(type) {
 	case ArrayVal:
 		r.boundsCheck(idx, len(xv.e), "array")
+		if !idx.IsConst() && !r.eng.cfg.ConcretizeIdx && len(xv.e) > 0 {
+			if _, scalar := xv.e[0].(*Term); scalar {
+				// symbolic index into an array of scalars: a selection term instead of a case split
+				r.set(fr, in, r.selectTerm(idx, len(xv.e), func(i int) *Term { return xv.e[i].(*Term) }))
+				return
+			}
+		}
 		i := r.concretize(idx, "index")
 		r.set(fr, in, xv.e[i])
 	case StrVal:
 		r.boundsCheck(idx, len(xv.s), "string")
-		i := r.concretize(idx, "index")
-		r.set(fr, in, r.tt.Const(BV(8), uint64(xv.s[i])))
+		r.set(fr, in, r.strByte(xv, idx))
 	default:
 		r.fail(fmt.Sprintf("Index on %T", x))
 	}
@@ -964,8 +991,7 @@ func (r *Run) lookup(fr *Frame, in *ssa.Lookup) {
 	if sv, ok := x.(StrVal); ok {
 		idx := r.idxTerm(fr, in.Index)
 		r.boundsCheck(idx, len(sv.s), "string")
-		i := r.concretize(idx, "index")
-		r.set(fr, in, r.tt.Const(BV(8), uint64(sv.s[i])))
+		r.set(fr, in, r.strByte(sv, idx))
 		return
 	}
 	m := x.(*MapObj)
